@@ -51,6 +51,9 @@ func (c *vFakeClient) Replicas(t string, p int32) ([]int32, error)        { retu
 func (c *vFakeClient) InSyncReplicas(t string, p int32) ([]int32, error)  { return nil, nil }
 func (c *vFakeClient) OfflineReplicas(t string, p int32) ([]int32, error) { return nil, nil }
 func (c *vFakeClient) GetOffset(t string, p int32, tm int64) (int64, error) {
+	if tm == OffsetOldest {
+		return 0, nil
+	}
 	return int64(len(c.cl.logs[p])), nil
 }
 func (c *vFakeClient) InitProducerID() (*InitProducerIDResponse, error) {
@@ -94,6 +97,10 @@ type vCluster struct {
 	faultMenu  int // number of fault kinds offered
 	requests   []vReqRec
 	idem       bool
+	clog       map[int32][]*RecordBatch // consumer-side log (pre-built batches)
+	clogEnd    map[int32]int64
+	perFetch   int
+	fetches    int
 	violations []string
 	sent       []vSentBatch
 	inFlightOnWire int
@@ -102,7 +109,8 @@ type vCluster struct {
 
 func vNewCluster(conf *Config, nBrokers, nParts, faults int) *vCluster {
 	cl := &vCluster{conf: conf, nParts: nParts, leader: map[int32]int{}, logs: map[int32][]vLogEntry{},
-		pstate: map[int32]*vPartState{}, faultsLeft: faults, idem: conf.Producer.Idempotent}
+		pstate: map[int32]*vPartState{}, faultsLeft: faults, idem: conf.Producer.Idempotent,
+		clog: map[int32][]*RecordBatch{}, clogEnd: map[int32]int64{}}
 	for i := 0; i < nBrokers; i++ {
 		cl.brokers = append(cl.brokers, &Broker{id: int32(i), addr: "b"})
 	}
